@@ -1790,5 +1790,58 @@ pub mod fasta {
         proof { lemma_lazy_final(concat(all), w); }
 //@end
 
+//@item fasta::RecordSetIter
+    impl<'a> RecordSetIter<'a> {
+        #[verifier::prophetic]
+        spec fn rem(&self) -> Seq<&'a BufferPosition> { self.pos.remaining() }
+        #[verifier::prophetic]
+        spec fn iwf(&self) -> bool {
+            self.pos.obeys_prophetic_iter_laws() && self.pos.decrease() is Some
+            && forall|i: int| 0 <= i < self.rem().len() ==> (#[trigger] self.rem()[i]).rwf(self.buffer@)
+        }
+    }
+
+//@impl_open fasta::IntoIterator for &RecordSet::into_iter
+//@item fasta::IntoIterator for &RecordSet::Item
+//@item fasta::IntoIterator for &RecordSet::IntoIter
+    #[verifier::prophetic]
+    spec fn ii_pre(self) -> bool { self.wf() }
+    #[verifier::prophetic]
+    spec fn ii_views(self) -> Seq<Seq<u8>> { Seq::<Seq<u8>>::empty() }
+    spec fn ii_lawful(self) -> bool { false }
+//@fn fasta::IntoIterator for &RecordSet::into_iter ret=r tags=C04,C20,C13
+//@spec
+        ensures
+            [C04,C20|fasta.RecordSet.into_iter] r.iwf() && r.buffer@ == self.buffer@ && r.rem().len() == self.n()
+                && forall|i: int| 0 <= i < self.n() ==> (#[trigger] r.rem()[i]).same_as(&self.positions@[i]),
+//@end
+}
+
+//@impl_open fasta::Iterator for RecordSetIter::next
+//@item fasta::Iterator for RecordSetIter::Item
+    #[verifier::prophetic]
+    spec fn it_pre(&self) -> bool { self.iwf() }
+    spec fn it_lawful(&self) -> bool { false }
+    #[verifier::prophetic]
+    spec fn it_views(&self) -> Seq<Seq<u8>> { Seq::<Seq<u8>>::empty() }
+    spec fn iv(x: &RefRecord<'a>) -> Seq<u8> { Seq::<u8>::empty() }
+    spec fn it_dec(&self) -> nat { match self.pos.decrease() { Some(n) => n as nat, None => 0 } }
+//@fn fasta::Iterator for RecordSetIter::next ret=r tags=C04,C20,C06
+//@spec
+        ensures
+            [C20,C04|fasta.RecordSetIter.next.some] old(self).rem().len() > 0 ==> (r matches Some(rec) && rec.buf_pos == old(self).rem()[0] && rec.buffer@ == old(self).buffer@
+                && rec.rwf() && final(self).rem() == old(self).rem().drop_first()),
+            [C20|fasta.RecordSetIter.next.none_is_sticky] old(self).rem().len() == 0 ==> r is None && final(self).rem().len() == 0,
+            [C20,C06|fasta.RecordSetIter.next.frame] final(self).iwf() && final(self).buffer == old(self).buffer,
+//@closure 0 params="p: &'a BufferPosition" ret="(q: RefRecord<'a>)"
+            ensures q.buffer == self.buffer && q.buf_pos == p
+//@tail vx_r
+        proof {
+            assert(vx_r is Some ==> old(self).pos.decrease() is Some && self.pos.decrease() is Some
+                && self.pos.decrease().unwrap() < old(self).pos.decrease().unwrap());
+        }
+//@end
+}
+
     } // verus!
 }
